@@ -67,6 +67,7 @@ type c36Fork struct {
 	name                     string
 	cfg                      *params.ChainConfig
 	prague, osaka, amsterdam bool
+	scheduled                bool // a later fork with other builder-relevant parameters is scheduled but not active
 }
 
 func c36U64(v uint64) *uint64 { return &v }
@@ -88,7 +89,12 @@ func c36Forks() []c36Fork {
 		}
 		return f
 	}
-	return []c36Fork{mk("cancun", 0), mk("prague", 1), mk("osaka", 2), mk("amsterdam", 3)}
+	// Cancun active, Prague (blob maximum 9 instead of 6, another blob target and base-fee update fraction)
+	// scheduled far in the future: the builder must use the parameters in force at the block's time
+	sched := mk("cancun+prague-scheduled", 0)
+	sched.cfg.PragueTime = c36U64(1 << 40)
+	sched.scheduled = true
+	return []c36Fork{mk("cancun", 0), mk("prague", 1), mk("osaka", 2), mk("amsterdam", 3), sched}
 }
 
 // ---------------------------------------------------------------------------
@@ -360,6 +366,10 @@ func c36NewWorld(f c36Fork) *c36World {
 		// precompile recorder: every cacheable precompile family with an accepted and a well-sized rejected input
 		{"PRECREC", dyn(19, 0, &c36PrecRec, 0, 10_000_000, gwei(10), cg(250), c36PrecCalldata()), "always"},
 	}
+	if f.scheduled {
+		// together with BLOB1 and BLOB2 more blobs than the active maximum (6) but not more than the scheduled one (9)
+		w.entries = append(w.entries, c36Entry{"BLOB4", blob(13, 4, 4, 330), "always"})
+	}
 	w.entries[0].includable = "unless:NONCE_DUP"           // XFER has the same sender and nonce as NONCE_DUP, which pays more
 	w.entries[1].includable = "after-any:XFER,NONCE_DUP" // XFER2 needs nonce 0 of its sender to be used
 	return w
@@ -538,7 +548,7 @@ func c36Subsets(n, maxSize int) [][]int {
 func TestVerif_C36(t *testing.T) {
 	mc.Run(t, "C36", func(r *mc.R) {
 		maxSize := mc.Pick(r, 3, 4)
-		r.Rule("rule sets {cancun, prague, osaka, amsterdam} x 3 payload-attribute combinations (withdrawals none / one / two incl. a zero amount and a sender, beacon root zero / set, random zero / set, fee recipient fresh / a sender, miner blob cap default / 2) " +
+		r.Rule("rule sets {cancun, prague, osaka, amsterdam, cancun with prague scheduled but inactive (pools containing a blob transaction, incl. a 4-blob one)} x 3 payload-attribute combinations (withdrawals none / one / two incl. a zero amount and a sender, beacon root zero / set, random zero / set, fee recipient fresh / a sender, miner blob cap default / 2) " +
 			"x every subset of <= max_pool_size transactions of the 23-entry alphabet as pool content (quick: subsets of 2 and 3 transactions take one attribute combination each, round robin); per case the empty and the full payload are round-tripped through engine executable data and imported on an independent chain; " +
 			"distinct = distinct imported block hashes")
 		r.Bound("max_pool_size", maxSize)
@@ -567,6 +577,16 @@ func TestVerif_C36(t *testing.T) {
 			r.Bound("pools."+f.name, len(subsets))
 			for ai, a := range w.attrs() {
 				for si, s := range subsets {
+					if f.scheduled {
+						// the scheduled-fork configuration differs in blob parameters only: pools with a blob transaction
+						hasBlob := false
+						for _, i := range s {
+							hasBlob = hasBlob || w.entries[i].tx.Type() == types.BlobTxType
+						}
+						if !hasBlob {
+							continue
+						}
+					}
 					// quick tier: pools of two and more transactions get one of the attribute combinations (round robin)
 					if r.Quick() && len(s) >= 2 && si%len(w.attrs()) != ai {
 						continue
@@ -705,12 +725,20 @@ func (g *c36Rig) check(r *mc.R, subset []int, independent, freshChain bool) erro
 	// the naive model of what can be included (evidence that full payloads are not trivially empty)
 	expected := 0
 	blobsWanted := 0
-	for _, s := range subset {
+	blobLimit := eip4844.MaxBlobsPerBlock(w.fork.cfg, fullBlock.Time())
+	if a.maxBlobs != 0 && a.maxBlobs < blobLimit {
+		blobLimit = a.maxBlobs
+	}
+	ordered := append([]int{}, subset...)
+	sort.SliceStable(ordered, func(i, j int) bool { // better paying blob transactions are tried first
+		return w.entries[ordered[i]].tx.GasTipCap().Cmp(w.entries[ordered[j]].tx.GasTipCap()) > 0
+	})
+	for _, s := range ordered {
 		e := w.entries[s]
 		ok := c36Includable(e.includable, inPool, w.fork.prague)
 		if ok && e.tx.Type() == types.BlobTxType {
 			blobsWanted += len(e.tx.BlobHashes())
-			if a.maxBlobs != 0 && blobsWanted > a.maxBlobs {
+			if blobsWanted > blobLimit {
 				ok = false
 				blobsWanted -= len(e.tx.BlobHashes())
 			}
